@@ -113,6 +113,11 @@ impl<H: Hal, T: Transport> VirtIOSound<H, T> {
 
         // set pcm params to default
         let mut pcm_parameters = vec![];
+        // The number of streams is chosen by the device: fail rather than abort if we can't allocate
+        // that many.
+        pcm_parameters
+            .try_reserve_exact(streams as usize)
+            .map_err(|_| Error::IoError)?;
         for _ in 0..streams {
             pcm_parameters.push(PcmParameters::default());
         }
